@@ -27,3 +27,11 @@ func (p *Peer) VerifMergeRemoteState(b []byte) { p.delegate.MergeRemoteState(b, 
 
 // VerifLocalState returns the full-state message this peer would send.
 func (p *Peer) VerifLocalState() []byte { return p.delegate.LocalState(false) }
+
+// VerifCrash stops this peer the way a killed process does: the memberlist is
+// shut down without announcing a leave, so the other members have to detect the
+// failure themselves.
+func (p *Peer) VerifCrash() error {
+	close(p.stopc)
+	return p.mlist.Shutdown()
+}
